@@ -493,12 +493,9 @@ func ruleR17() *Rule {
 			csd := c.method("SegmentBase", "copyStoredDocs")
 			if csd != nil {
 				n := 0
-				for _, cs := range p.callersOf(csd) {
+				var judge func(cs ssa.CallInstruction, depth int) (bool, bool)
+				judge = func(cs ssa.CallInstruction, depth int) (bool, bool) {
 					fn := cs.Parent()
-					if !p.InZap(fn) {
-						continue
-					}
-					n++
 					const (
 						evFS = 1 << 0
 						evDE = 1 << 1
@@ -572,6 +569,36 @@ func ruleR17() *Rule {
 							de = false
 						}
 					}
+					if fs && de {
+						return true, true
+					}
+					// a wrapper around the copy (`copyStoredDocsAndRemap`): an unexported method that copies its
+					// own receiver's documents is guarded where it is called
+					if depth < 2 && fn.Object() != nil && !fn.Object().Exported() && fn.Signature.Recv() != nil && len(fn.Params) > 0 &&
+						len(cs.Common().Args) > 0 && root(cs.Common().Args[0]) == ssa.Value(fn.Params[0]) {
+						fsAll, deAll, k := true, true, 0
+						for _, cs2 := range p.callersOf(fn) {
+							if !p.InZap(cs2.Parent()) {
+								continue
+							}
+							k++
+							f2, d2 := judge(cs2, depth+1)
+							fsAll = fsAll && (fs || f2)
+							deAll = deAll && (de || d2)
+						}
+						if k > 0 {
+							return fsAll, deAll
+						}
+					}
+					return fs, de
+				}
+				for _, cs := range p.callersOf(csd) {
+					fn := cs.Parent()
+					if !p.InZap(fn) {
+						continue
+					}
+					n++
+					fs, de := judge(cs, 0)
 					c.add2(fs, []string{"C05"}, "copyStoredDocs/"+funcShortName(fn)+"/fields-same", c.pos(cs), "raw byte copy of stored documents happens only when all inputs have the same field list (fieldsSame)",
 						"copyStoredDocs is reachable with fieldsSame false: stored field ids of the input would be copied into a segment that numbers fields differently", "call: "+describeInstr(p, cs))
 					c.add2(de, []string{"C05"}, "copyStoredDocs/"+funcShortName(fn)+"/no-drops", c.pos(cs), "raw byte copy of stored documents happens only when that segment's drop bitmap is nil or empty",
